@@ -370,6 +370,43 @@ func init() {
 			{Name: "c20-twin", Overlay: filesOv("C20/c20.go"), Pkg: "files", Entry: "VerifC20Seg", Twin: true,
 				Args: func(tier string, l *Loaded) [][]int64 { return [][]int64{{1, 1, 1}} }},
 		}}
+	properties["C14"] = &PropertySpec{ID: "C14",
+		Rule:        "85 regexes of the supported subset (every construct alone, every quantifier incl. lazy forms on literal/class/group atoms, plain/non-capturing/named groups nested to depth 2, alternation of atoms or groups alone and under quantifiers, ^ $ anchors, numbered and named back-references incl. nested groups) x ASCII texts of length 0..T (quick 3, thorough 5) without \\r \\f \\v; spans and group bindings compared with an independent backtracking regex engine written in the harness",
+		Assumptions: []string{"texts contain no \\r, \\f, \\v (engines differ on \\s for \\v; the property excludes \\r and \\f)", "repeated bodies that match the empty string and references to unset/empty groups are assumed away", "alternatives are single atoms or groups spanning the enclosing group (ab|cd is outside the stated subset)", "\\w \\W \\b \\B, look-around, empty classes are outside the subset"},
+		Groups: []JobGroup{
+			{Name: "c14", Overlay: libOverlay("C14/c14.go"), Pkg: "libvore", Entry: "VerifC14", PanicOK: true,
+				Args: func(tier string, l *Loaded) [][]int64 {
+					return seqArgs(countOf(l, "libvore", "VerifC14Count"), tOf(tier, 3, 5), 0)
+				}},
+			{Name: "c14-twin", Overlay: libOverlay("C14/c14.go"), Pkg: "libvore", Entry: "VerifC14", Twin: true, PanicOK: true,
+				Args: func(tier string, l *Loaded) [][]int64 { return [][]int64{{0, 2, 1}} }},
+		}}
+	c15Ov := astOv("C15/corpus.go", "C15/c15.go")
+	properties["C15"] = &PropertySpec{ID: "C15",
+		Rule:        "48 corpus programs covering every construct x every gap between two tokens (symbolic gap index) x {nothing, blank run, line comment, blank+block comment+blank, two comments} at token level through the real parser (accepted, identical syntax tree); at source level through the real lexer with blank runs from {space, tab+newline, CRLF} and line/block comments with symbolic bodies of 0..2 (thorough 3) arbitrary ASCII bytes (token sequence modulo WS/COMMENT unchanged); 52 keywords x all letter-case variants (symbolic case bit per letter)",
+		Assumptions: []string{"one altered gap per run (the parser passes only a token index between its functions)", "comments inside string and regex literals are not gaps"},
+		Groups: []JobGroup{
+			{Name: "c15-tokens", Overlay: c15Ov, Pkg: "ast", Entry: "VerifC15Tokens",
+				Args: func(tier string, l *Loaded) [][]int64 { return seqArgs(countOf(l, "ast", "VerifC15Count"), 0) }},
+			{Name: "c15-source", Overlay: c15Ov, Pkg: "ast", Entry: "VerifC15Source",
+				Args: func(tier string, l *Loaded) [][]int64 {
+					n := countOf(l, "ast", "VerifC15Count")
+					out := seqArgs(n, 0)
+					if tier == "thorough" {
+						out = append(out, seqArgs(n, 1)...)
+						out = append(out, seqArgs(n, 2)...)
+						out = append(out, seqArgs(n, 3)[:6]...)
+					} else {
+						out = append(out, seqArgs(n, 1)[:12]...)
+						out = append(out, seqArgs(n, 2)[:3]...)
+					}
+					return out
+				}},
+			{Name: "c15-keywords", Overlay: c15Ov, Pkg: "ast", Entry: "VerifC15Keyword",
+				Args: func(tier string, l *Loaded) [][]int64 { return seqArgs(countOf(l, "ast", "VerifC15KeywordCount")) }},
+			{Name: "c15-twin", Overlay: c15Ov, Pkg: "ast", Entry: "VerifC15Tokens", Twin: true,
+				Args: func(tier string, l *Loaded) [][]int64 { return [][]int64{{0, 1}} }},
+		}}
 	properties["T00"] = &PropertySpec{ID: "T00", Groups: []JobGroup{{
 		Name: "toy2", Overlay: map[string][]string{"libvore": {"toy/toy2.go"}}, Pkg: "libvore", Entry: "VerifToy2",
 		Args: func(tier string, l *Loaded) [][]int64 { return [][]int64{{2}, {3}} },
